@@ -106,3 +106,21 @@ CONTRACTS.append(Contract(
              ('other-declarations-untouched', 'same_except(g_store._data, old(g_store._data), QualifierName)')],
     raises={'CIMError': Raises(post=[UNCHANGED])},
 ))
+
+
+# ---- further contracts of this property live in the sibling file C11_prov.py (same conventions)
+import importlib.util as _ilu_C11_prov
+import os as _os_C11_prov
+import sys as _sys_C11_prov
+_p_C11_prov = _os_C11_prov.path.join(_os_C11_prov.path.dirname(_os_C11_prov.path.abspath(__file__)), 'C11_prov.py')
+if _os_C11_prov.path.exists(_p_C11_prov):
+    _s_C11_prov = _ilu_C11_prov.spec_from_file_location('contracts_C11_prov', _p_C11_prov)
+    _m_C11_prov = _ilu_C11_prov.module_from_spec(_s_C11_prov)
+    _sys_C11_prov.modules['contracts_C11_prov'] = _m_C11_prov
+    _sys_C11_prov.modules.setdefault('contracts_C11', _sys_C11_prov.modules.get('contracts_C11') or _sys_C11_prov.modules[__name__])
+    _s_C11_prov.loader.exec_module(_m_C11_prov)
+    CONTRACTS.extend(_m_C11_prov.CONTRACTS)
+    CLASS_SPECS = dict(globals().get('CLASS_SPECS', {}))
+    for _k, _v in getattr(_m_C11_prov, 'CLASS_SPECS', {}).items():
+        CLASS_SPECS.setdefault(_k, {}).update(_v)
+    LEMMAS = list(globals().get('LEMMAS', [])) + list(getattr(_m_C11_prov, 'LEMMAS', []))
